@@ -226,7 +226,21 @@ class SRPAuthHandler:
             Public=atv_pub_key,
         )
 
-        # TODO: verify signature here
+        # The accessory proves ownership of its long-term key by signing
+        # AccessoryX + identifier + LTPK (a malformed identifier, key or signature
+        # makes this fail)
+        acc_device_x = hkdf_expand(
+            "Pair-Setup-Accessory-Sign-Salt",
+            "Pair-Setup-Accessory-Sign-Info",
+            binascii.unhexlify(self._session.key),
+        )
+        device_info = acc_device_x + bytes(atv_identifier) + bytes(atv_pub_key)
+        try:
+            Ed25519PublicKey.from_public_bytes(bytes(atv_pub_key)).verify(
+                bytes(atv_signature), device_info
+            )
+        except (InvalidSignature, ValueError) as ex:
+            raise exceptions.AuthenticationError("signature error") from ex
 
         return HapCredentials(
             atv_pub_key, self._auth_private, atv_identifier, self.pairing_id
